@@ -51,6 +51,7 @@ type tapeFile struct {
 	World string   `json:"world"`
 	Seed  uint64   `json:"seed"`
 	Tape  []uint64 `json:"tape"`
+	Scale int      `json:"scale,omitempty"`
 }
 
 type summary struct {
@@ -72,6 +73,7 @@ func main() {
 	wantTape := flag.Bool("emit-tape", false, "include the consumed tape in the output")
 	list := flag.Bool("list", false, "list worlds")
 	stepCap := flag.Int64("stepcap", 0, "override the step cap")
+	scale := flag.Int("scale", 1, "history length multiplier (thorough tier: 3)")
 	flag.Parse()
 
 	log.SetOutput(io.Discard) // the library logs decode warnings to the global logger
@@ -91,6 +93,9 @@ func main() {
 			fmt.Println(n)
 		}
 		return
+	}
+	if *scale > 0 {
+		sim.Scale = *scale
 	}
 	if *stepCap > 0 {
 		simrt.SetStepCap(*stepCap)
@@ -112,6 +117,9 @@ func main() {
 		}
 		if *world == "" {
 			*world = tf.World
+		}
+		if tf.Scale > 0 {
+			sim.Scale = tf.Scale
 		}
 		build, ok := worlds.Registry[*world]
 		if !ok {
